@@ -158,7 +158,7 @@ def run(chk):
                 try:
                     P = np.asarray(br.ad_projector(lab, nf, qed), dtype=object)
                 except Exception as e:
-                    chk.fail(f"{name}.available", f"{type(e).__name__}: {e}", fn=fn, goal="a projector exists for every sector of the basis", replay=rp)
+                    chk.raised(f"{name}.available", e, fn=fn, goal="a projector exists for every sector of the basis", replay=rp)
                     continue
                 chk.ground(f"{name}.available", P.shape == (14, 14), fn=fn, goal="a projector exists for every sector of the basis")
                 members = [el.split(".") for el in amap[lab]]
@@ -191,7 +191,7 @@ def run(chk):
                 ps = br.ad_projectors(nf, qed)
                 chk.ground(f"C31.ad_projectors[{tag},nf={nf}].one_per_sector", len(ps) == len(labels), fn="eko.basis_rotation:ad_projectors", goal="one projector per sector of the basis", detail=f"{len(ps)} projectors, {len(labels)} sectors", replay=rp)
             except Exception as e:
-                chk.fail(f"C31.ad_projectors[{tag},nf={nf}].one_per_sector", f"{type(e).__name__}: {e}", fn="eko.basis_rotation:ad_projectors", goal="one projector per sector of the basis", replay=rp)
+                chk.raised(f"C31.ad_projectors[{tag},nf={nf}].one_per_sector", e, fn="eko.basis_rotation:ad_projectors", goal="one projector per sector of the basis", replay=rp)
             chk.configs += 1
     # intrinsic labels
     for nf in (3, 4, 5, 6):
